@@ -22,6 +22,18 @@ CHECKS = {
          "letter cases, recorded traffic (cross-checked against the file's address column) and seeded random frames.",
          "Trusts TLC and the spec's reading of Annex 10 AP/PI overlays (cross-checked against 12 000 recorded frames' address column).",
          "DESIGN.md section 5 C02"),
+ "C07": ("TLA+ spec of the Annex 10 altitude codes (Gillham encoder built from the reflected-Gray definition, independent "
+         "decoder); TLC proves the codecs mutually inverse over all 8192 codes; all codes x carriers replayed into the code and "
+         "validated by TLC",
+         "Exhaustive over the 13-bit and 12-bit code spaces on both the spec and the implementation side (every code through every "
+         "carrier, other bits random); guard cells and recorded traffic in addition.",
+         "Trusts TLC and the spec's reading of the Gillham code (checked inside the spec: bijection onto 1280 altitudes, unit-distance).",
+         "DESIGN.md section 5 C07"),
+ "C08": ("TLA+ spec of identity code and DF4/5/20/21/11 header fields incl. the DF11 PI overlay; TLC checks builder/extractor "
+         "round-trips; exhaustive field products replayed into the code and validated by TLC",
+         "Exhaustive over 8192 identity patterns and the 16384 FS x DR x IIS x IDS tuples, CA x 162 overlays, every decoder x DF 0..31.",
+         "Description strings are checked for shape only (text or None); trusts TLC and the field positions of Annex 10 as transcribed.",
+         "DESIGN.md section 5 C08"),
 }
 
 PENDING = {}
